@@ -70,7 +70,9 @@ func fixBlock(from uintptr, block []byte, trampoline uintptr,
 			if l := copy(copyBlock, block); l != len(block) {
 				return nil, 0, errors.New("copy block array error")
 			}
-			fixedInsData := fixIns(ins, pos, copyBlock, blockSize, (uint64)(from), trampoline)
+			// the copy of this instruction lands len(fixedBlock)-pos bytes further than its position
+			// in the origin once an earlier short branch has been widened
+			fixedInsData := fixIns(ins, pos, copyBlock, blockSize, (uint64)(from), trampoline, len(fixedBlock)-pos)
 			fixedBlock = append(fixedBlock, fixedInsData...)
 
 			logger.Debugf("[%d]>[%d] 0x%x:\t%s\t\t%s\t\t%s", ins.Len, len(fixedInsData),
@@ -96,8 +98,9 @@ func fixBlock(from uintptr, block []byte, trampoline uintptr,
 }
 
 // fixIns 替换单条指令的偏移地址
+// grown 之前的短跳转指令被扩展后, 当前指令在 trampoline 中相对原位置后移的字节数
 func fixIns(ins *x86asm.Inst, pos int, block []byte, blockSize int,
-	from uint64, trampoline uintptr) []byte {
+	from uint64, trampoline uintptr, grown int) []byte {
 	if ins.PCRelOff <= 0 {
 		// 不需要替换偏移地址
 		return block[pos : pos+ins.Len]
@@ -126,7 +129,7 @@ func fixIns(ins *x86asm.Inst, pos int, block []byte, blockSize int,
 		}
 
 		result := bytecode.EncodeAddress(block[pos:offset],
-			block[offset:offset+ins.PCRel], ins.PCRel, addr, (int)(from)-(int)(trampoline))
+			block[offset:offset+ins.PCRel], ins.PCRel, addr, (int)(from)-(int)(trampoline)-grown)
 		if len(result) > ins.PCRel {
 			// keep what follows the displacement (e.g. the imm8 of CMP byte ptr [rip+disp32], imm8)
 			return append(result, block[offset+ins.PCRel:pos+ins.Len]...)
@@ -134,6 +137,13 @@ func fixIns(ins *x86asm.Inst, pos int, block []byte, blockSize int,
 	} else {
 		if ins.Op.String() == bytecode.CallInsName {
 			logger.Debug((addr)+pos+ins.Len, blockSize, (addr)+pos+ins.Len)
+		}
+		// a target at the function's own entry (recursive call, loop) has to keep landing on the
+		// first copied instruction although this copy has moved by grown bytes
+		if grown != 0 && (addr)+pos+ins.Len == 0 {
+			result := bytecode.EncodeAddress(block[pos:offset],
+				block[offset:offset+ins.PCRel], ins.PCRel, addr, -grown)
+			return append(result, block[offset+ins.PCRel:pos+ins.Len]...)
 		}
 	}
 
